@@ -105,6 +105,7 @@ const (
 	siteHandle  = "certwatcher.handleEvent"
 	siteBetween = "tls.LoadX509KeyPair.betweenReads"
 	siteSwap    = "certwatcher.ReadCertificate.beforeSwap"
+	siteRead    = "os.ReadFile.before"
 )
 
 type parked struct {
@@ -439,7 +440,15 @@ func runOne(t *testing.T, h history, c *mc.Chooser, o runOpts) (out mc.Outcome) 
 		model := certenv.New(h.layout)
 		g := &gates{passed: map[string]int{}}
 		e := &env{m: model, d: disk, g: g}
-		vhook.SetHandler(func(site string, key any) { g.point(site, "") })
+		vhook.SetHandler(func(site string, key any) {
+			extra := ""
+			if site == siteRead {
+				if n, ok := key.(string); ok {
+					extra = e.modelName(n)
+				}
+			}
+			g.point(site, extra)
+		})
 		defer vhook.SetHandler(nil)
 		vfs.SetBackend(e)
 		defer vfs.SetBackend(nil)
@@ -565,7 +574,14 @@ func runOne(t *testing.T, h history, c *mc.Chooser, o runOpts) (out mc.Outcome) 
 				kc, ok := model.Disk(certenv.Key)
 				return fmt.Sprintf("%s{k=%v/%v}", p.site, kc, ok)
 			}
-			return p.site + "{" + p.extra + "}"
+			if p.site == siteAdd {
+				return p.site + "{" + p.extra + "}"
+			}
+			// any other gate (e.g. in front of a direct os.ReadFile of edited code): whatever the goroutine
+			// has read since its previous gate is part of the disk as it is now
+			cc, ok1 := model.Disk(certenv.Cert)
+			kc, ok2 := model.Disk(certenv.Key)
+			return fmt.Sprintf("%s{%s c=%v/%v k=%v/%v}", p.site, p.extra, cc, ok1, kc, ok2)
 		}
 		var (
 			lastSeq int     // highest park sequence number already attributed
@@ -725,7 +741,7 @@ func runOne(t *testing.T, h history, c *mc.Chooser, o runOpts) (out mc.Outcome) 
 					}
 				}
 				for _, p := range ps {
-					if p.site == siteBetween {
+					if p.site == siteBetween || (p.site == siteRead && strings.Count(p.note, siteRead+"{") >= 2) {
 						stepDuringLoad = true
 					}
 				}
@@ -1129,7 +1145,11 @@ func (p pass) describe() string {
 	if p.onlyFull {
 		l = fmt.Sprint(p.depth)
 	}
-	return fmt.Sprintf("pass %q: histories of %s steps over {%s}, f in {cert,key}, g in {2,3} up to renaming g2<->g3; inotify merge policy never (and always, for histories of <= %d steps that contain an in-place step); <= %d deviations", p.name, l, a, p.mergeDepth, p.bound)
+	mp := "inotify merge policy never"
+	if p.mergeDepth > 0 {
+		mp += fmt.Sprintf(" (and always, for histories of <= %d steps that contain an in-place step)", p.mergeDepth)
+	}
+	return fmt.Sprintf("pass %q: histories of %s steps over {%s}, f in {cert,key}, g in {2,3} up to renaming g2<->g3; %s; <= %d deviations", p.name, l, a, mp, p.bound)
 }
 
 func TestCheck(t *testing.T) {
@@ -1280,11 +1300,9 @@ func TestCheck(t *testing.T) {
 			seenSig[f.Sig] = true
 			founds = append(founds, found{h, f})
 		}
-		if done <= 2 || done%499 == 0 {
-			for _, s := range e.SampleRuns {
-				rep.Sample(map[string]any{"history": h.String(), "schedule": s})
-				break
-			}
+		if (done == 1 || done%97 == 0) && len(e.SampleRuns) > 0 {
+			// the last sample run kept by the explorer uses the whole deviation budget
+			rep.Sample(map[string]any{"kind": "explored execution (labels of the choices taken)", "history": h.String(), "schedule": e.SampleRuns[len(e.SampleRuns)-1]})
 		}
 		if len(rep.HarnessErrors) > 5 {
 			break
